@@ -2,7 +2,9 @@ from common import Ctx, RULES
 from legs import run_classified_leg
 
 PID = "C11"
-COQ_FILES = ["Model/Base.v", "Model/BpSpec.v", "Model/BpMachine.v", "Proofs/BpMachineProofs.v", "Gen/Bp.v", "Ties/BpTie.v", "Properties/C11.v"]
+COQ_FILES = ["Model/Base.v", "Model/BpSpec.v", "Model/BpMachine.v", "Proofs/BpMachineProofs.v", "Gen/Bp.v", "Ties/BpTie.v", "Properties/C11.v",
+             "Gen/Dr.v", "Spec/DrArch.v", "Model/Dr.v", "Model/Wp.v", "Proofs/DrProofs.v", "Proofs/WpProofs.v",
+             "Model/LifecycleX.v", "Proofs/LifecycleXProofs.v", "Properties/C11X.v"]
 RULES[PID] = ("e2e leg, two families, every history in a forked child with a watchdog. (1) world histories on a fixed debuggee (0 or 3 worker threads, optional "
               "wait-for-flag-file mode): the full grid launched/attached x single/multi-threaded x stop kind (not started or just attached, at a breakpoint "
               "with a hardware watchpoint armed, after stepi, after exit) x ending (drop, detach + drop) plus the worker-focus plan (attached, 3 workers: a breakpoint on `finale` is created while a worker thread is in focus, the workers' own breakpoint is removed, the workers finish and exit, the main thread stops at `finale`, then drop / detach + drop), then random fill, then a stress tail (40 quick / 300 thorough attached 3-thread histories ending at a breakpoint or after stepi, run while spinner threads keep all cores busy so that traps raised but not yet reported exist at the moment of release); attached = the harness "
